@@ -104,6 +104,13 @@ def write_if_changed(path, content):
     return True
 
 
+# generated modules per translator (a translator not listed here counts for every property)
+T_OUT = {'t_arena': ['Gen_Arena'], 't_arith': ['Gen_Arith'], 't_conf': ['Gen_Conf'], 't_exec': ['Gen_Exec'], 't_html': ['Gen_Html'],
+         't_interp': ['Gen_Interp'], 't_interpsrc': ['Gen_InterpSrc'], 't_kill': ['Gen_Kill'], 't_ksconst': ['Gen_KsConst'],
+         't_lexer': ['Gen_Lexer'], 't_lock': ['Gen_Lock'], 't_orch': ['Gen_Orch'], 't_regresslog': ['Gen_RegressLog'],
+         't_report': ['Gen_Report'], 't_shell': ['Gen_Shell'], 't_step': ['Gen_Step', 'Gen_StepIO'], 't_util': ['Gen_Util']}
+
+
 class Ctx:
     def __init__(self, pid, tier, seed):
         self.pid = pid
@@ -132,23 +139,58 @@ class Ctx:
         return thorough if self.tier == 'thorough' else quick
 
     # ---- regen -------------------------------------------------------------
-    def regen(self, translators):
-        """Run the translators named; each is a python module in harness/ with
-        generate(repo) -> {relative gen path: content}.  Failure to translate is
-        reported as a broken tie, not as an exception."""
-        import importlib
+    def gen_closure(self):
+        """names of the generated modules (Gen_*) that Properties_<pid>.v depends on, directly or through area files"""
+        seen, todo, gens = set(), [os.path.join(COQ, 'theories', 'Properties_%s.v' % self.pid)], set()
+        while todo:
+            f = todo.pop()
+            if f in seen or not os.path.exists(f):
+                continue
+            seen.add(f)
+            text = strip_coq_comments(open(f).read())
+            gens |= set(re.findall(r'\b(Gen_[A-Za-z0-9]+)\b', text))
+            for m in re.finditer(r'\b((?:[A-Z][A-Za-z0-9_]*\.)+[A-Z][A-Za-z0-9_]*)\b', text):
+                parts = m.group(1).split('.')
+                if parts[0] == 'Robsd':
+                    parts = parts[1:]
+                if parts:
+                    todo.append(os.path.join(COQ, 'theories', *parts) + '.v')
+        return gens
+
+    def regen(self, translators, have_lock=False):
+        """Regenerate coq/gen from REPO: EVERY translator (harness/t_*.py, generate(repo) -> {file: content}) is run and
+        its output written, so that no proof is compiled against a generated file left behind by another check or by a
+        run on a scratch copy.  A translator that raises is reported as a broken tie of this check when one of its
+        files is in the dependency closure of Properties_<pid>.v or it is named in [translators]; otherwise it is only
+        noted.  The lock of the Coq tree is held while writing (prove() regenerates again under the same lock as make)."""
+        import importlib, glob as _glob
         errors = []
-        for t in translators:
-            try:
-                m = importlib.import_module(t)
-                for rel, content in m.generate(REPO).items():
-                    write_if_changed(os.path.join(COQ, 'gen', rel), content)
-            except Exception as e:   # translator pattern no longer matches
-                errors.append('%s: %s' % (t, e))
+
+        def work():
+            need = self.gen_closure()
+            for path in sorted(_glob.glob(os.path.join(VERIF, 'harness', 't_*.py'))):
+                t = os.path.basename(path)[:-3]
+                try:
+                    m = importlib.import_module(t)
+                    out = m.generate(REPO)
+                    for rel, content in out.items():
+                        write_if_changed(os.path.join(COQ, 'gen', rel), content)
+                except Exception as e:   # translator pattern no longer matches
+                    outs = T_OUT.get(t)
+                    mine = t in translators or outs is None or any(o in need for o in outs)
+                    if mine:
+                        errors.append('%s: %s' % (t, e))
+                    else:
+                        self.notes.append('translator %s (not needed by this property) raised: %s' % (t, str(e)[:200]))
+        if have_lock:
+            work()
+        else:
+            with Lock(os.path.join(COQ, '.lock')):
+                work()
         return errors
 
     # ---- prove ---------------------------------------------------------------
-    def prove(self, timeout=1500):
+    def prove(self, timeout=1500, translators=()):
         """Full .vo build of Properties_<pid>.v and everything it needs, with the
         property file itself always recompiled so that its Print Assumptions
         output is that of this run."""
@@ -161,6 +203,7 @@ class Ctx:
         res['theorems'] = thms
         with Lock(os.path.join(COQ, '.lock')):
             refresh_coqproject()
+            res['regen_errors'] = self.regen(list(translators), have_lock=True)
             target = 'theories/Properties_%s.vo' % pid
             try:
                 os.unlink(os.path.join(COQ, target))
@@ -403,6 +446,10 @@ def finish(ctx, proof, audit, res, regen_errors, level='proof', extra_assumption
         broken.append('tie: ' + e)
     if res.disagreements:
         broken.append('correspondence: model and implementation differ on %d case(s)' % len(res.disagreements))
+    if not res.tie_errors and (res.evaluations < 1 or len(res.nontrivial) < 2):
+        # a run that compared (almost) nothing is not evidence: the tie to the code was not exercised
+        broken.append('tie: the correspondence covered %d case(s), %d of them distinct and non-trivial - too few to count as a check'
+                      % (res.evaluations, len(res.nontrivial)))
     if broken and not violations:
         path = os.path.join(rdir, 'broken-%d.json' % ctx.seed)
         json.dump({'property': pid, 'kind': 'no-failing-input-found', 'broken': broken,
